@@ -523,6 +523,10 @@ class DirectSolver(LinearSolver):
 
                 x_vec[:] = sol_array
 
+            # the right-hand side was read in the scaled state, so the solution that is cached
+            # with it has to be the scaled one too.
+            sol_array = x_vec
+
         # matrix-vector-product generated jacobians are scaled.
         elif mode == 'rev' and (system._has_output_scaling or system._has_resid_scaling):
             # The matrix was assembled column by column in the forward scaled space,
